@@ -83,6 +83,26 @@ Theorem c07_order : forall (A : Type) (key : A -> Q) (l : list A),
 Proof. intros A key l. split; [apply sort_desc_perm|apply sort_desc_sorted]. Qed.
 Print Assumptions c07_order.
 
+(* --- ... and the sort is stable, as Python's sorted(..., reverse=True) is: herds whose keys are equal keep the
+       relative order they had in the input (for every key value q, the sub-list of herds with that key is unchanged).
+       With c07_order this fixes the priority list completely: no tie is broken by anything but input order. *)
+Theorem c07_order_stable : forall (A : Type) (key : A -> Q) (q : Q) (l : list A),
+  filter (fun y => Qeq_bool (key y) q) (sort_desc key l) = filter (fun y => Qeq_bool (key y) q) l.
+Proof. exact sort_desc_stable. Qed.
+Print Assumptions c07_order_stable.
+
+(* --- a list already in priority order is returned unchanged, so re-ranking the herds every month with unchanged
+       keys never reshuffles them (idempotence) *)
+Theorem c07_order_idempotent : forall (A : Type) (key : A -> Q) (l : list A),
+  (sorted_desc key l -> sort_desc key l = l) /\ sort_desc key (sort_desc key l) = sort_desc key l.
+Proof. intros A key l. split; [apply sort_desc_fixed|apply sort_desc_idem]. Qed.
+Print Assumptions c07_order_idempotent.
+
+Example order_stable_witness :
+  sort_desc (fun p : Q * nat => fst p) [(1, 0%nat); (2, 1%nat); (1, 2%nat); (2, 3%nat)] =
+  [(2, 1%nat); (2, 3%nat); (1, 0%nat); (1, 2%nat)].
+Proof. vm_compute. reflexivity. Qed.
+
 (* --- fed never exceeds the herd, is never negative; the starving count is the remainder and never negative *)
 Theorem c07_fed_bounds : forall s g f, feeder_ok s -> 0 <= g -> 0 <= f ->
   let o := feed_the_species s g f in
